@@ -244,7 +244,7 @@ Definition cell_step (v : ist * ost) (a : action) : fault + ist * ost :=
   | CallPanic _ r c =>
       match in_use_fault c si with
       | Some f => inl f
-      | None => inr (if r then si else IMoved, so)
+      | None => inr (if r then si else IDropped, so)   (* an owned argument dies with the unwinding callee *)
       end
   | UserDropIn _ =>
       match si with
